@@ -59,8 +59,9 @@ func c13Scenarios(tier string) []runner.Job {
 		c := sim.RelCfg("c13-rel-k4-batch-over-plain-nodes", 0, 4, 0, 8, fMove|fBExch|fRelX|fBSet|fBRem|fReg, 0)
 		c.BatchRefs = []int{0, 5, 6}
 		c.RegSpecs = []int{0, 5}
+		c.Sets = append(c.Sets, []int{0}) // {A}: a second plain node
 		return c
-	}(), false), pick(tier, 4, 5), 2))
+	}(), false), pick(tier, 5, 6), 2))
 	// replays that all load the same dump object: loading must not tie the dump to the world
 	{
 		c := sim.EntCfg("c13-ent-k6-shared-dump", 6, 1, fBNew|fBRem, 0)
